@@ -170,6 +170,41 @@ def run_hypothesis(mod, part, shard, nshards, tier, seed, open_sigs, st):
             st.harness_error = tb
 
 
+def run_fuzz(mod, part, shard, nshards, tier, seed, open_sigs, st, check_id):
+    """coverage-guided campaign in a child process (libFuzzer ends its process itself)"""
+    import subprocess
+    import tempfile
+    import shutil
+
+    total = max(1, int(part.examples[tier] * float(os.environ.get("VT_SCALE", "1"))))
+    runs = max(1, total // nshards)
+    d = tempfile.mkdtemp(prefix="vt-fuzz-")
+    outfile = os.path.join(d, "stats.json")
+    try:
+        cmd = [sys.executable, "-m", "vt.fuzzshard", check_id, part.name, str(seed * 1000 + shard + 1), str(runs), outfile, os.path.join(d, "corpus")]
+        try:
+            p = subprocess.run(cmd, capture_output=True, text=True, timeout=part.budget_s[tier] + 120)
+            tail = (p.stdout + p.stderr)[-1500:]
+        except subprocess.TimeoutExpired:
+            st.budget_exhausted = True
+            tail = "timeout"
+        if not os.path.exists(outfile):
+            st.harness_error = "fuzz campaign produced no statistics: " + tail
+            return
+        r = json.load(open(outfile))
+        st.evals = r["evals"]
+        st.inner = r["evals"]
+        st.classes.update(r["classes"])
+        st.nontrivial.update(r["nontrivial"])
+        st.samples = r["samples"]
+        if r["failure"]:
+            st.failures.append(r["failure"])
+        elif r["evals"] < runs - 2 and tail != "timeout":
+            st.harness_error = f"fuzz campaign stopped after {r['evals']} of {runs} executions without a recorded failure: " + tail
+    finally:
+        shutil.rmtree(d, ignore_errors=True)
+
+
 def run_enumerate(mod, part, shard, nshards, tier, seed, open_sigs, st):
     budget = part.budget_s[tier]
     t_end = time.time() + budget
@@ -215,6 +250,8 @@ def main(argv):
         open_sigs = [s for s in os.environ.get("VT_OPEN_SIGS", "").split(",") if s]
         if part.kind == "hypothesis":
             run_hypothesis(mod, part, shard, nshards, tier, seed, open_sigs, st)
+        elif part.kind == "fuzz":
+            run_fuzz(mod, part, shard, nshards, tier, seed, open_sigs, st, check_id)
         else:
             run_enumerate(mod, part, shard, nshards, tier, seed, open_sigs, st)
     except BaseException as e:  # noqa
